@@ -39,12 +39,21 @@ def station_spec(k):
     return base + (k + 1)
 
 
-def dataset(st, conv):
+def rep_t(lon_u, conv, dten):
+    """the same position turned by dten tenths of a degree, written as the decimal a user would type (n/10 is the double nearest
+    to that decimal): longitudes that are not binary fractions, so a convention change is not exact in floating point."""
+    t = lon_u * 5 + dten
+    if conv == 180 and lon_u >= 360:
+        t -= 3600
+    return t / 10.0
+
+
+def dataset(st, conv, R=rep):
     import xarray as xr
     n = len(st)
     efth = np.stack([station_spec(k) for k in range(n)])
     ds = xr.Dataset({"efth": (("site", "freq", "dir"), efth),
-                     "lon": (("site",), np.array([rep(s[0], conv) for s in st])),
+                     "lon": (("site",), np.array([R(s[0], conv) for s in st])),
                      "lat": (("site",), np.array([s[1] / 2.0 for s in st]))},
                     coords={"site": np.arange(n), "freq": FREQ, "dir": DIRS})
     return ds
@@ -76,19 +85,28 @@ def run(ctx):
                 "the three methods. distinct_nontrivial = distinct (layout, query, conventions, tolerance, max_sites).")
     for v in vectors:
         st, qs, cd, cq, tol, maxs = v["st"], v["qs"], v["convD"], v["convQ"], v["tol"], v["maxs"]
-        ds = dataset(st, cd)
-        qlon = [rep(q[0], cq) for q in qs]
+        # one vector in three is replayed on the globe turned by 0.1 or 0.2 degrees (decimal longitudes): distances are the same, but
+        # converting between conventions is no longer exact in floating point. Cases where a station lies exactly AT the tolerance are
+        # then undecidable and skipped; a station exactly at the query point (distance zero) is not: the property names it.
+        dten = ctx.rng.choice((0, 0, 1, 2))
+        if dten and any(d2 == tol * tol and d2 > 0 for info in v["idw"] for d2 in info["d2"]):
+            dten = 0
+        R = (lambda u, c: rep_t(u, c, dten)) if dten else rep
+        ds = dataset(st, cd, R)
+        qlon = [R(q[0], cq) for q in qs]
         qlat = [q[1] / 2.0 for q in qs]
         # a query whose longitudes all lie in [0,180] reads the same in both conventions: the library then takes it as [0,360]
         told = tol / 2.0
         ctx.case(("sel", str(st), str(qs), cd, cq, tol, maxs), True)
         key0 = {"dset_conv": cd, "query_conv": cq, "tolerance": ">0" if tol > 0 else "0"}
+        if dten:
+            key0["decimal_longitudes"] = True
         variant = ctx.rng.choice(("list", "ndarray", "precomputed"))
         kw = {}
         ql, qa = (qlon, qlat) if variant == "list" else (np.array(qlon), np.array(qlat))
         if variant == "precomputed":
             kw = {"dset_lons": ds.lon.values.copy(), "dset_lats": ds.lat.values.copy()}
-        replon = [x / 2.0 for x in v["replon"]]
+        replon = [(x * 5 + dten) / 10.0 for x in v["replon"]] if dten else [x / 2.0 for x in v["replon"]]
         # a query made only of longitudes in [0,180] cannot tell its convention: reported longitudes may follow either
         ambiguous = all(0 <= x <= 180 for x in qlon)
 
@@ -157,6 +175,8 @@ def run(ctx):
         want = sorted(k - 1 for k in v["bbox"])
         alt = sorted(k - 1 for k in v["bbox_other"]) if ambiguous else want
         try:
+            if dten:
+                continue        # box edges through stations are not decidable once the convention change rounds
             if seam_touch and tol > 0:
                 ctx.notes["bbox_skipped_seam_touch"] = ctx.notes.get("bbox_skipped_seam_touch", 0) + 1
                 continue
